@@ -85,6 +85,13 @@ Theorem C09_no_mechanism_recorded : forall cfg frames mechs,
 Proof. exact no_mechanism_recorded. Qed.
 Print Assumptions C09_no_mechanism_recorded.
 
+Example C09_adversarial_nonvacuous : forall cfg,
+  let fs := [IClose 403; ITune 0 4096 60; ITune 7 0 60; IOpenOk] in
+  h_errs (ch0_run cfg fs) = [Some 403] /\
+  h_out (ch0_run cfg fs) = [OTuneOk 65535 4096 (c_heartbeat cfg); OOpen (c_vhost cfg);
+                            OTuneOk 7 131072 (c_heartbeat cfg); OOpen (c_vhost cfg)].
+Proof. exact adversarial_example. Qed.
+
 (* Whole observable of Connection.open() for every offer, configuration and
    refusal (Connection.Close(code) / drop / silence at any of the three steps). *)
 Theorem C09_open : forall i, open_wf i -> open_prop_ok i (open_model i) = true.
